@@ -71,7 +71,7 @@ func CompileDir(dir, nameOverride string) *Compiled {
 	}
 	conf, err := smartcontract.ParseContractConfig(filepath.Join(dir, "config.yml"))
 	if err != nil {
-		panic(fmt.Sprintf("chainkit: config of %s: %v", dir, err))
+		panic(HarnessError{Msg: fmt.Sprintf("chainkit: config of %s: %v", dir, err)})
 	}
 	o := &compiler.Options{}
 	o.Name = conf.Name
@@ -90,11 +90,11 @@ func CompileDir(dir, nameOverride string) *Compiled {
 	o.SourceURL = conf.SourceURL
 	ne, di, err := compiler.CompileWithOptions(dir, nil, o)
 	if err != nil {
-		panic(fmt.Sprintf("chainkit: compile %s: %v", dir, err))
+		panic(HarnessError{Msg: fmt.Sprintf("chainkit: compile %s: %v", dir, err)})
 	}
 	m, err := compiler.CreateManifest(di, o)
 	if err != nil {
-		panic(fmt.Sprintf("chainkit: manifest of %s: %v", dir, err))
+		panic(HarnessError{Msg: fmt.Sprintf("chainkit: manifest of %s: %v", dir, err)})
 	}
 	nb, err := ne.Bytes()
 	if err != nil {
